@@ -277,11 +277,53 @@ def cont5(ctx: Ctx) -> None:
                 val = classify(st.value, n)
         return val
 
+    def run_helper(n: int) -> Optional[str]:
+        """error = helper(errors): evaluate the helper's returns abstractly (one level)"""
+        for a in assigns:
+            v = a.value
+            if isinstance(v, ast.Call) and len(v.args) == 1 and norm(v.args[0]) == errs:
+                cal = ctx.P.resolve_call(mod, v)
+                if cal.kind == "pkg" and cal.name.startswith(f"{PKG}._extract."):
+                    hf = mod.defs.get(cal.name.split(".")[-1])
+                    if isinstance(hf, ast.FunctionDef) and len(hf.args.args) == 1:
+                        pv = hf.args.args[0].arg
+
+                        def cls2(e: ast.AST) -> str:
+                            if isinstance(e, ast.IfExp):
+                                t = _len_test(e.test, pv, n)
+                                return "?" if t is None else cls2(e.body if t else e.orelse)
+                            if isinstance(e, ast.Constant) and e.value is None:
+                                return "none"
+                            if isinstance(e, ast.Subscript) and norm(e.value) == pv and norm(e.slice) == "0":
+                                return "single" if n >= 1 else "indexerror"
+                            if isinstance(e, ast.Call) and norm(e.func) == "ExceptionGroup" and len(e.args) == 2 and norm(e.args[1]) == pv:
+                                return "group"
+                            return "?"
+
+                        def walk(body: List[ast.stmt]) -> Optional[str]:
+                            for st in body:
+                                if isinstance(st, ast.If):
+                                    t = _len_test(st.test, pv, n)
+                                    if t is None:
+                                        return "?"
+                                    r = walk(st.body if t else st.orelse)
+                                    if r is not None:
+                                        return r
+                                elif isinstance(st, ast.Return):
+                                    return cls2(st.value) if st.value is not None else "none"
+                            return None
+                        return walk(hf.body)
+        return None
+
     want = {0: "none", 1: "single", 2: "group", 3: "group"}
     for n, w in want.items():
         got = run(h.body, n)
+        if got in (None, "?"):
+            got = run_helper(n) or got
         if got == w:
             ctx.R.ok("CONT-5", f"len({errs}) == {n} -> error is {w}")
+        elif got in (None, "?"):
+            ctx.R.undecided("CONT-5", f"cannot evaluate how Stack.error is computed for {n} recorded exception(s)")
         else:
             ctx.R.fail("CONT-5", mod, h, f"with {n} recorded exception(s) Stack.error must be {w}, the code computes {got}",
                        construct=f"len({errs}) == {n}")
@@ -455,6 +497,7 @@ def _block_of(mod: Mod, st: ast.stmt) -> List[ast.stmt]:
 
 def eng2(ctx: Ctx) -> None:
     """ENG-2 the elaborate_frame result is dispatched over exactly the four documented shapes"""
+    from ..util import flip_compare
     mod = _engine_mod(ctx)
     fn = mod.fn("extract_iter")
     main = _main_loop(fn)
@@ -471,64 +514,136 @@ def eng2(ctx: Ctx) -> None:
     ninner = norm(ecall[0].args[1]) if len(ecall[0].args) > 1 else None
     if ninner is None:
         raise AnalysisError("ENG-2: elaborate_frame call lost its next_inner argument")
-    txt = [norm(s) for s in rest]
     # (1) None -> continue
-    if rest and isinstance(rest[0], ast.If) and norm(rest[0].test) == f"{rvar} is None" and len(rest[0].body) == 1 and isinstance(rest[0].body[0], ast.Continue):
+    none_if = [s for s in rest if isinstance(s, ast.If) and norm(s.test) == f"{rvar} is None"]
+    if none_if and len(none_if[0].body) == 1 and isinstance(none_if[0].body[0], ast.Continue) and rest.index(none_if[0]) == 0:
         ctx.R.ok("ENG-2", f"{rvar} is None -> keep the rest")
+    elif none_if:
+        ctx.R.fail("ENG-2", mod, none_if[0], "a None result must leave the remainder untouched (`continue`)", construct="None -> continue")
     else:
-        ctx.R.fail("ENG-2", mod, rest[0] if rest else main, "a None result must leave the remainder untouched (`continue`)", construct="None -> continue")
-    # (2) non-sequence -> singleton
-    seq_if = [s for s in rest if isinstance(s, ast.If) and "isinstance" in norm(s.test) and "Sequence" in norm(s.test)]
-    if len(seq_if) == 1 and len(seq_if[0].body) == 1 and len(seq_if[0].orelse) == 1 \
-            and norm(seq_if[0].body[0]) == f"items = {rvar}" and norm(seq_if[0].orelse[0]) == f"items = ({rvar},)" \
-            and norm(seq_if[0].test).startswith(f"isinstance({rvar},"):
+        ctx.R.undecided("ENG-2", "the `replacement is None` test is not the first statement after the yield")
+    # (2) non-sequence -> singleton: items bound from an isinstance(..., Sequence) choice
+    ivar = None
+    okseq = None
+    for s_ in rest:
+        test = body_v = else_v = None
+        if isinstance(s_, ast.If) and len(s_.body) == 1 and len(s_.orelse) == 1 and isinstance(s_.body[0], ast.Assign) and isinstance(s_.orelse[0], ast.Assign) \
+                and norm(s_.body[0].targets[0]) == norm(s_.orelse[0].targets[0]):
+            test, body_v, else_v, tgt = s_.test, s_.body[0].value, s_.orelse[0].value, norm(s_.body[0].targets[0])
+        elif isinstance(s_, ast.Assign) and isinstance(s_.value, ast.IfExp):
+            test, body_v, else_v, tgt = s_.value.test, s_.value.body, s_.value.orelse, norm(s_.targets[0])
+        if test is not None and "isinstance" in norm(test) and "Sequence" in norm(test):
+            ivar = tgt
+            neg = isinstance(test, ast.UnaryOp) and isinstance(test.op, ast.Not)
+            core = test.operand if neg else test
+            a, b = (else_v, body_v) if neg else (body_v, else_v)
+            okseq = norm(core).startswith(f"isinstance({rvar},") and norm(a) == rvar and norm(b) == f"({rvar},)"
+            seq_node = s_
+    if ivar is None:
+        ctx.R.undecided("ENG-2", "cannot find where the elaborate result is normalised to a sequence")
+        return
+    if okseq:
         ctx.R.ok("ENG-2", "sequence kept, anything else wrapped in a 1-tuple")
     else:
-        ctx.R.fail("ENG-2", mod, seq_if[0] if seq_if else main, "a non-sequence result must be treated as a one-item sequence, a sequence as itself", construct="items = replacement / (replacement,)")
-    # (3) re-queue: pop from the right of to_elaborate, appendleft onto to_unwrap (order preserved)
-    rq = [s for s in rest if isinstance(s, ast.While) and norm(s.test) == "to_elaborate"]
-    if len(rq) == 1 and len(rq[0].body) == 1 and norm(rq[0].body[0]) == "to_unwrap.appendleft((None, *to_elaborate.pop()))":
-        ctx.R.ok("ENG-2", "pending items are moved back to the unwrap queue in order")
+        ctx.R.fail("ENG-2", mod, seq_node, "a non-sequence result must be treated as a one-item sequence, a sequence as itself", construct="items = replacement / (replacement,)")
+    # (3) re-queue loop: pop from the right of to_elaborate, appendleft onto to_unwrap
+    rq = [s_ for s_ in rest if isinstance(s_, ast.While) and nonempty_of(s_.test) == "to_elaborate"]
+    if len(rq) == 1:
+        pops = [c for c in ast.walk(rq[0]) if isinstance(c, ast.Call) and isinstance(c.func, ast.Attribute) and norm(c.func.value) == "to_elaborate" and c.func.attr in ("pop", "popleft")]
+        pushes = [c for c in ast.walk(rq[0]) if isinstance(c, ast.Call) and isinstance(c.func, ast.Attribute) and norm(c.func.value) == "to_unwrap" and c.func.attr in ("append", "appendleft")]
+        if len(pops) == 1 and len(pushes) == 1:
+            if (pops[0].func.attr, pushes[0].func.attr) == ("pop", "appendleft"):
+                ctx.R.ok("ENG-2", "pending items are moved back to the unwrap queue in order (pop right / appendleft)")
+            else:
+                ctx.R.fail("ENG-2", mod, rq[0], f"items behind the frame are moved back with {pops[0].func.attr}() / {pushes[0].func.attr}(): their order is reversed (or they land behind older items)",
+                           construct="re-queue loop")
+        else:
+            ctx.R.undecided("ENG-2", "re-queue loop has an unrecognised body")
     else:
-        ctx.R.fail("ENG-2", mod, rq[0] if rq else main, "items behind the frame must be moved back to the unwrap queue preserving their order (pop right / appendleft)", construct="re-queue loop")
+        ctx.R.undecided("ENG-2", "re-queue loop `while to_elaborate` not found")
     # (4) replace vs insert
-    disp = [s for s in rest if isinstance(s, ast.If) and "items" in norm(s.test) and ninner in norm(s.test)]
+    disp = [s_ for s_ in rest if isinstance(s_, ast.If) and ivar in norm(s_.test) and ninner in norm(s_.test)]
     if len(disp) != 1:
-        raise AnalysisError("ENG-2: replace/insert dispatch not found")
+        ctx.R.undecided("ENG-2", "replace/insert dispatch not found")
+        return
     d = disp[0]
-    atoms = ["items", f"items[-1] is {ninner}"]
-    ok, cex = equivalent(d.test, lambda e: (not e["items"]) or (not e[f"items[-1] is {ninner}"]), atoms)
+
+    def is_prune_branch(stmts: List[ast.stmt]) -> bool:
+        return any(isinstance(x, ast.While) for s_ in stmts for x in ast.walk(s_))
+    if is_prune_branch(d.body) == is_prune_branch(d.orelse):
+        ctx.R.undecided("ENG-2", "cannot tell the replace branch from the insert branch")
+        return
+    replace_in_body = is_prune_branch(d.body)
+    rep, ins = (d.body, d.orelse) if replace_in_body else (d.orelse, d.body)
+    atoms = [ivar, f"{ivar}[-1] is {ninner}"]
+    spec = (lambda e: (not e[atoms[0]]) or (not e[atoms[1]])) if replace_in_body else (lambda e: not ((not e[atoms[0]]) or (not e[atoms[1]])))
+    try:
+        ok, cex = equivalent(d.test, spec, atoms)
+    except AnalysisError as ex:
+        ctx.R.undecided("ENG-2", str(ex))
+        ok = None
     if ok:
-        ctx.R.ok("ENG-2", f"replace iff (not items) or (items[-1] is not {ninner})", "truth table over 2 atoms")
-    else:
+        ctx.R.ok("ENG-2", f"replace iff (not {ivar}) or ({ivar}[-1] is not {ninner})", "truth table over 2 atoms")
+    elif ok is False:
         ctx.R.fail("ENG-2", mod, d, f"the remainder must be replaced iff the result is empty or does not end in {ninner}, and extended otherwise; counterexample {cex}",
                    construct="replace/insert condition")
     # replace branch: prune by depth
-    pr = [s for s in d.body if isinstance(s, ast.While)]
-    good = False
-    if len(pr) == 1 and len(pr[0].body) == 1 and norm(pr[0].body[0]) == "to_unwrap.popleft()":
+    pr = [x for s_ in rep for x in ast.walk(s_) if isinstance(x, ast.While)]
+    if len(pr) == 1:
         t = pr[0].test
-        if isinstance(t, ast.BoolOp) and isinstance(t.op, ast.And) and len(t.values) == 2 and norm(t.values[0]) == "to_unwrap" \
-                and isinstance(t.values[1], ast.Compare) and norm(t.values[1].left) == "to_unwrap[0][2]" \
-                and isinstance(t.values[1].ops[0], ast.GtE) and norm(t.values[1].comparators[0]) == "depth":
-            good = True
-    if good:
-        ctx.R.ok("ENG-2", "replace: drop queued items whose depth >= the frame's depth (its callees), nothing outward")
+        conj = list(t.values) if isinstance(t, ast.BoolOp) and isinstance(t.op, ast.And) else [t]
+        cmpn = [c for c in conj if isinstance(c, ast.Compare)]
+        pops = [c for c in ast.walk(pr[0]) if isinstance(c, ast.Call) and norm(c.func) == "to_unwrap.popleft"]
+        if len(cmpn) == 1 and len(pops) == 1 and any(nonempty_of(c) == "to_unwrap" for c in conj):
+            txt = norm(cmpn[0]) if norm(cmpn[0].left).startswith("to_unwrap") else flip_compare(cmpn[0])
+            if txt == "to_unwrap[0][2] >= depth":
+                ctx.R.ok("ENG-2", "replace: drop queued items whose depth >= the frame's depth (its callees), nothing outward")
+            else:
+                ctx.R.fail("ENG-2", mod, pr[0], f"replace/prune must remove exactly the queued items at depth >= the elaborated frame's depth; the loop tests `{txt}`", construct="prune-by-depth loop")
+        else:
+            ctx.R.undecided("ENG-2", "prune-by-depth loop has an unrecognised shape")
     else:
-        ctx.R.fail("ENG-2", mod, d, "replace/prune must remove exactly the queued items at depth >= the elaborated frame's depth", construct="prune-by-depth loop")
+        ctx.R.undecided("ENG-2", "prune-by-depth loop not found in the replace branch")
     # insert branch: drop exactly one copy of next_inner
-    pops = [c for s in d.orelse for c in ast.walk(s) if isinstance(c, ast.Call) and norm(c.func) == "to_unwrap.popleft"]
-    if len(pops) == 1:
+    pops = [c for s_ in ins for c in ast.walk(s_) if isinstance(c, ast.Call) and norm(c.func) == "to_unwrap.popleft"]
+    loops_in_ins = [x for s_ in ins for x in ast.walk(s_) if isinstance(x, (ast.While, ast.For))]
+    if len(pops) == 1 and not loops_in_ins:
         ctx.R.ok("ENG-2", "insert: exactly one queued copy of next_inner is dropped")
     else:
-        ctx.R.fail("ENG-2", mod, d, f"the insert form must drop exactly one queued copy of {ninner} (it is in both lists); found {len(pops)} popleft calls",
+        ctx.R.fail("ENG-2", mod, d, f"the insert form must drop exactly one queued copy of {ninner} (it is in both lists); found {len(pops)} popleft call(s)",
                    construct="insert branch popleft")
     # push
-    push = [s for s in rest if isinstance(s, ast.For) and norm(s.iter) == "reversed(items)"]
-    if len(push) == 1 and len(push[0].body) == 1 and norm(push[0].body[0]).startswith("to_unwrap.appendleft((") and norm(push[0].body[0]).endswith(", item, depth))"):
-        ctx.R.ok("ENG-2", "result items are queued in order at the frame's depth")
+    push = [s_ for s_ in rest if isinstance(s_, ast.For) and ivar in norm(s_.iter)]
+    if len(push) == 1:
+        calls = [c for c in ast.walk(push[0]) if isinstance(c, ast.Call) and isinstance(c.func, ast.Attribute) and norm(c.func.value) == "to_unwrap" and c.func.attr in ("append", "appendleft")]
+        if len(calls) == 1 and isinstance(calls[0].args[0], ast.Tuple) and len(calls[0].args[0].elts) == 3:
+            rev = norm(push[0].iter) == f"reversed({ivar})"
+            left = calls[0].func.attr == "appendleft"
+            dep = norm(calls[0].args[0].elts[2])
+            if rev and left and dep == "depth":
+                ctx.R.ok("ENG-2", "result items are queued in order at the frame's depth")
+            elif rev != left:
+                ctx.R.fail("ENG-2", mod, push[0], "result items must be pushed in reverse with appendleft (or forward with append at the front): their order is reversed", construct="push loop")
+            elif dep != "depth":
+                ctx.R.fail("ENG-2", mod, push[0], f"result items must be queued at the elaborated frame's depth, not `{dep}`: a later prune by that frame misses or over-reaches them", construct="push loop")
+            else:
+                ctx.R.undecided("ENG-2", "push loop has an unrecognised shape")
+        else:
+            ctx.R.undecided("ENG-2", "push loop has an unrecognised body")
     else:
-        ctx.R.fail("ENG-2", mod, push[0] if push else main, "result items must be pushed in reverse with appendleft at the frame's depth", construct="push loop")
+        ctx.R.undecided("ENG-2", "push loop over the result items not found")
+
+
+def nonempty_of(t: ast.AST) -> Optional[str]:
+    """`q` / `len(q) > 0` / `len(q) >= 1` / `len(q) != 0` -> 'q'"""
+    if isinstance(t, ast.Name):
+        return t.id
+    if isinstance(t, ast.Compare) and len(t.ops) == 1 and isinstance(t.left, ast.Call) and norm(t.left.func) == "len" and isinstance(t.left.args[0], ast.Name) \
+            and isinstance(t.comparators[0], ast.Constant):
+        k, op = t.comparators[0].value, t.ops[0]
+        if (isinstance(op, ast.Gt) and k == 0) or (isinstance(op, ast.GtE) and k == 1) or (isinstance(op, ast.NotEq) and k == 0):
+            return t.left.args[0].id
+    return None
 
 
 def yf1(ctx: Ctx) -> None:
@@ -1016,18 +1131,39 @@ def ori_rules(ctx: Ctx) -> None:
         i = blk.index(st)
         prev = blk[i - 1] if i > 0 else None
         ovar = kws.get("origin")
-        types_ok = False
-        if ovar and isinstance(prev, ast.If) and isinstance(prev.test, ast.UnaryOp) and isinstance(prev.test.op, ast.Not) \
-                and isinstance(prev.test.operand, ast.Call) and norm(prev.test.operand.func) == "isinstance" \
-                and norm(prev.test.operand.args[0]) == ovar and len(prev.body) == 1 and norm(prev.body[0]) == f"{ovar} = None":
-            tl = prev.test.operand.args[1]
-            names = sorted(norm(e) for e in tl.elts) if isinstance(tl, ast.Tuple) else [norm(tl)]
-            types_ok = names == ["types.AsyncGeneratorType", "types.CoroutineType", "types.GeneratorType"]
-        if types_ok:
-            ctx.R.ok("ORI-3", "the only Frame(...) construction is preceded by the filter reducing origin to a generator/coroutine/async generator or None")
-        else:
-            ctx.R.fail("ORI-3", mod, c, "the origin given to Frame must first be reduced to a coroutine/generator/async-generator object or None (weak-referenceable, recoverable by extract_outermost)",
+        from ..util import resolve_expr
+        # find, before the construction in the same block, an `if <test>: origin = None`
+        filt = None
+        for cand in blk[:i][::-1]:
+            if isinstance(cand, ast.If) and ovar and len(cand.body) == 1 and norm(cand.body[0]) == f"{ovar} = None" and not cand.orelse:
+                filt = cand
+                break
+        if not ovar:
+            ctx.R.fail("ORI-3", mod, c, "Frame is constructed without its origin", construct="Frame(origin=...)")
+        elif filt is None:
+            ctx.R.fail("ORI-3", mod, c, "the origin given to Frame is not first reduced to a coroutine/generator/async-generator object or None (weak-referenceable, recoverable by extract_outermost)",
                        construct="origin filter before Frame(...)")
+        else:
+            isi = [x for x in ast.walk(filt.test) if isinstance(x, ast.Call) and norm(x.func) == "isinstance" and norm(x.args[0]) == ovar]
+            if len(isi) != 1:
+                ctx.R.undecided("ORI-3", "origin filter does not use a single isinstance(origin, ...) test")
+            else:
+                tl = resolve_expr(mod, isi[0].args[1])
+                names = sorted(norm(e) for e in tl.elts) if isinstance(tl, ast.Tuple) else [norm(tl)]
+                atom = norm(isi[0])
+                try:
+                    okf, cex = equivalent(filt.test, lambda e: not e[atom], [atom])
+                except AnalysisError as ex:
+                    okf, cex = None, str(ex)
+                if names != ["types.AsyncGeneratorType", "types.CoroutineType", "types.GeneratorType"]:
+                    ctx.R.fail("ORI-3", mod, filt, f"origin must be kept exactly for coroutine / generator / async generator objects; the filter tests {names}", construct="origin filter types")
+                elif okf:
+                    ctx.R.ok("ORI-3", "the only Frame(...) construction is preceded by the filter reducing origin to a generator/coroutine/async generator or None")
+                elif okf is False:
+                    ctx.R.fail("ORI-3", mod, filt, f"origin is dropped under a different condition than 'not a coroutine/generator/async generator': counterexample {cex}: "
+                               "a frame obtained by looking inside a suspended generator-like object can lose that object as its origin", construct="origin filter condition")
+                else:
+                    ctx.R.undecided("ORI-3", f"origin filter condition not understood: {cex}")
     # better_origin: prefers generator-like candidates, falls back if not weak-referenceable
     bo = mod.fn("better_origin")
     t = [s for s in bo.body if isinstance(s, ast.Try)]
